@@ -142,19 +142,142 @@ fn glob_class(pat: &str, expected: bool) -> String {
     format!("C14|GLOB|{}|exp={}", f.join("+"), expected)
 }
 
+/// Subscribers whose connection goes away in every way the server can notice it - at a read (orderly close, reset) or at
+/// a write (output pending for a subscriber that never reads, then close or reset): afterwards no table may name the
+/// connection and PUBLISH must count nobody. Complete product: 3 subscription sets x {no backlog, 8 MiB backlog} x
+/// {close, reset} x {one subscriber, a second one that stays}.
+fn departing_subscriber_cases() -> Value {
+    use super::c05::Harness;
+    use crate::resp::{self, R};
+    let mut h = Harness::new(SrvOpts::default());
+    let mut recs = Vec::new();
+    let mut errors: Vec<String> = Vec::new();
+    let mut n = 0u64;
+    let subs: Vec<(&str, Vec<Vec<&str>>)> = vec![
+        ("SUBSCRIBE c", vec![vec!["SUBSCRIBE", "c"]]),
+        ("PSUBSCRIBE c*", vec![vec!["PSUBSCRIBE", "c*"]]),
+        ("SUBSCRIBE c d, PSUBSCRIBE c*", vec![vec!["SUBSCRIBE", "c", "d"], vec!["PSUBSCRIBE", "c*"]]),
+    ];
+    let payload = vec![b'x'; 64 * 1024];
+    for (sname, setup) in subs.iter() {
+        for backlog in [false, true] {
+            for reset in [false, true] {
+                for stayer in [false, true] {
+                    n += 1;
+                    let name = format!("{}; {}; {}; {}", sname, if backlog { "8 MiB of messages unread" } else { "nothing pending" }, if reset { "reset" } else { "close" }, if stayer { "a second subscriber stays" } else { "alone" });
+                    let mut run = || -> Result<Option<String>, String> {
+                        h.ensure()?;
+                        let mut s1 = h.srv.as_ref().unwrap().connect().map_err(|e| format!("connect: {:?}", e))?;
+                        let mut acks = 0;
+                        for c in setup.iter() {
+                            s1.send(&resp::cmd(c));
+                            acks += c.len() - 1;
+                        }
+                        let (got, err) = h.collect(&mut s1, acks, 4);
+                        if got.len() != acks || err.is_some() {
+                            return Err(format!("subscribing: {} acks, {:?}", got.len(), err));
+                        }
+                        let mut s2 = None;
+                        if stayer {
+                            let mut c2 = h.srv.as_ref().unwrap().connect().map_err(|e| format!("connect: {:?}", e))?;
+                            c2.send(&resp::cmd(&["SUBSCRIBE", "c"]));
+                            let (g2, e2) = h.collect(&mut c2, 1, 4);
+                            if g2.len() != 1 || e2.is_some() {
+                                return Err("second subscriber".into());
+                            }
+                            s2 = Some(c2);
+                        }
+                        if backlog {
+                            for _ in 0..128 {
+                                h.aux_call(&[b"PUBLISH".to_vec(), b"c".to_vec(), payload.clone()])?;
+                                if let Some(c2) = s2.as_mut() {
+                                    // the one that stays reads what it gets
+                                    c2.poll();
+                                    let _ = c2.take_all();
+                                }
+                            }
+                        }
+                        let id = s1.id;
+                        if reset { s1.discard() } else { s1.close() }
+                        drop(s1);
+                        let mut gone = false;
+                        for _ in 0..40 {
+                            let _ = h.srv.as_ref().unwrap().steps(2);
+                            if let Some(c2) = s2.as_mut() {
+                                c2.poll();
+                                let _ = c2.take_all();
+                            }
+                            if !(h.srv.as_ref().unwrap().h.connections)().iter().any(|r| r.id == id) {
+                                gone = true;
+                                break;
+                            }
+                        }
+                        if !gone {
+                            return Ok(Some("departed-connection-still-in-the-connection-table".into()));
+                        }
+                        let _ = h.srv.as_ref().unwrap().steps(2);
+                        let (ch, pa, co) = h.srv.as_ref().unwrap().h.pubsub.verif_snapshot();
+                        let named = ch.iter().any(|(_, ids)| ids.contains(&id)) || pa.iter().any(|(_, ids)| ids.contains(&id)) || co.iter().any(|(c, _, _)| *c == id);
+                        let r = h.aux_call(&["PUBLISH", "c", "after"])?;
+                        let want = if stayer { 1 } else { 0 };
+                        if let Some(mut c2) = s2.take() {
+                            c2.discard();
+                        }
+                        let _ = h.srv.as_ref().unwrap().steps(3);
+                        if named {
+                            return Ok(Some("subscription-tables-still-name-the-departed-connection".into()));
+                        }
+                        if r != R::Int(want) {
+                            return Ok(Some(format!("publish-counts-{}-receivers-instead-of-{}", resp::show(&r), want)));
+                        }
+                        Ok(None)
+                    };
+                    match run() {
+                        Ok(Some(p)) => recs.push(json!({"name": name, "problem": p})),
+                        Ok(None) => {}
+                        Err(e) => {
+                            errors.push(format!("{}: {}", name, e));
+                            h.srv = None;
+                            h.aux = None;
+                        }
+                    }
+                }
+            }
+        }
+    }
+    json!({"departing": {"cases": n, "recs": recs, "errors": errors}})
+}
+
 fn extra_worker(_tier: &str, task: &Value, _io: &mut WorkerIo) -> Option<Value> {
+    if task.get("departing").is_some() {
+        return Some(departing_subscriber_cases());
+    }
     task.get("glob").map(|l| glob_sweep(l.as_u64().unwrap_or(3) as usize))
 }
 
 fn extra_parent(pool: &Pool, tier: &str, report: &mut RunReport) -> Value {
     let gl = if tier == "thorough" { 5 } else { 4 };
-    let out = pool.map(vec![json!({"glob": gl})], 0);
+    let out = pool.map(vec![json!({"glob": gl}), json!({"departing": true})], 0);
+    let mut departing = json!({});
+    match &out[1] {
+        Outcome::Done(v) => {
+            for e in v["departing"]["errors"].as_array().cloned().unwrap_or_default() {
+                report.machinery_errors.push(format!("departing subscriber: {}", e));
+            }
+            for r in v["departing"]["recs"].as_array().cloned().unwrap_or_default() {
+                report.deviations.push(Deviation { property: "C14".into(), sig: format!("C14|departing-subscriber|{}|{}", r["name"].as_str().unwrap_or(""), r["problem"].as_str().unwrap_or("")), replay: json!({"kind": "departing", "case": r}) });
+            }
+            println!("  c14-departing: cases={} with-a-problem={}", v["departing"]["cases"], v["departing"]["recs"].as_array().map(|a| a.len()).unwrap_or(0));
+            departing = json!({"cases": v["departing"]["cases"], "what": "3 subscription sets (SUBSCRIBE, PSUBSCRIBE, both with two channels) x {nothing pending, 8 MiB of published messages the subscriber never read} x {close, reset} x {alone, a second subscriber of the same channel stays}: once the connection has left the connection table no subscription table names it and PUBLISH counts only the one that stayed"});
+        }
+        Outcome::Died { status, .. } => report.machinery_errors.push(format!("departing-subscriber worker died: {}", status)),
+    }
     match &out[0] {
         Outcome::Done(v) => {
             for d in v["devs"].as_array().cloned().unwrap_or_default() {
                 report.deviations.push(Deviation { property: "C14".into(), sig: glob_class(d["pattern"].as_str().unwrap_or(""), d["expected"].as_bool().unwrap_or(false)), replay: json!({"kind": "glob", "case": d}) });
             }
-            json!({"pubsub_glob_vs_reference": {"patterns": v["patterns"], "dont_care_patterns": v["dont_care_patterns"], "evaluations": v["evaluations"], "max_pattern_len": gl}})
+            json!({"pubsub_glob_vs_reference": {"patterns": v["patterns"], "dont_care_patterns": v["dont_care_patterns"], "evaluations": v["evaluations"], "max_pattern_len": gl}, "departing_subscribers": departing})
         }
         Outcome::Died { status, .. } => {
             report.machinery_errors.push(format!("glob worker died: {}", status));
